@@ -463,6 +463,12 @@ pub enum Decision {
     /// rule as for the read error: a run that meets it may fail loudly; it may not complete with
     /// a different table.
     StatFault { at: u64 },
+    /// (round 15) the `at`-th thread creation of this run fails with EAGAIN (RLIMIT_NPROC, a
+    /// container's pids limit, no memory for the stack): `thread::Builder::spawn` /
+    /// `spawn_scoped` return the error, `thread::spawn` / `Scope::spawn` panic as std does. Same
+    /// rule as for the other hard faults: the run may fail loudly, it may not complete with a
+    /// different table (a fallback path that does the work on the calling thread is fine).
+    SpawnFault { at: u64 },
 }
 
 /// length of each generator's output under the default schedule (layout, likely): where the
@@ -490,6 +496,7 @@ impl Decision {
             Decision::ReadFault { at } => *at == NO_FAULT,
             Decision::WriteFault { at } => *at == NO_FAULT,
             Decision::StatFault { at } => *at == NO_FAULT,
+            Decision::SpawnFault { at } => *at == NO_FAULT,
         }
     }
     pub fn defaulted(&self) -> Decision {
@@ -522,6 +529,7 @@ impl Decision {
             Decision::ReadFault { .. } => Decision::ReadFault { at: NO_FAULT },
             Decision::WriteFault { .. } => Decision::WriteFault { at: NO_FAULT },
             Decision::StatFault { .. } => Decision::StatFault { at: NO_FAULT },
+            Decision::SpawnFault { .. } => Decision::SpawnFault { at: NO_FAULT },
         }
     }
     /// scheduling deviations live in their own stream (keyed by step), `Open` decisions are keyed
@@ -595,6 +603,8 @@ pub struct Profile {
     pub write_fault: u64,
     /// one path-based metadata query of this run fails with EIO: seed of which one (0 = none)
     pub stat_fault: u64,
+    /// one thread creation of this run fails with EAGAIN: seed of which one (0 = none)
+    pub spawn_fault: u64,
     /// covering family only: the machine's core count (0 = the default)
     pub cover_cores: u32,
 }
@@ -613,6 +623,7 @@ impl Profile {
         read_fault: false,
         write_fault: 0,
         stat_fault: 0,
+        spawn_fault: 0,
         cover_cores: 0,
     };
 
@@ -653,6 +664,7 @@ impl Profile {
             read_fault: false,
         write_fault: 0,
         stat_fault: 0,
+        spawn_fault: 0,
         cover_cores: 0,
         }
     }
@@ -701,6 +713,7 @@ impl Profile {
             read_fault: false,
         write_fault: 0,
         stat_fault: 0,
+        spawn_fault: 0,
         cover_cores: 0,
         }
     }
@@ -895,6 +908,7 @@ pub struct RunStats {
     /// runs in which the output device filled up (ENOSPC) while the program was writing
     pub write_faults_injected: u64,
     pub stat_faults_injected: u64,
+    pub spawn_faults_injected: u64,
 }
 
 impl RunStats {
@@ -938,6 +952,7 @@ impl RunStats {
         self.read_faults_injected += o.read_faults_injected;
         self.write_faults_injected += o.write_faults_injected;
         self.stat_faults_injected += o.stat_faults_injected;
+        self.spawn_faults_injected += o.spawn_faults_injected;
     }
 }
 
@@ -1156,6 +1171,11 @@ pub struct World {
     pub stat_fault_at: Option<u64>,
     pub stats_seen: u64,
     pub stat_faulted: bool,
+    /// (round 15) which thread creation fails with EAGAIN in this run, how many were seen
+    pub spawn_fault_decided: bool,
+    pub spawn_fault_at: Option<u64>,
+    pub spawns_seen: u64,
+    pub spawn_faulted: bool,
     /// 0 = generate_layout, 1 = generate_likelysubtags (index into OUT_LEN_HINT)
     pub gen_index: usize,
     pub intruded: bool,
@@ -1272,6 +1292,10 @@ impl World {
             stat_fault_at: None,
             stats_seen: 0,
             stat_faulted: false,
+            spawn_fault_decided: false,
+            spawn_fault_at: None,
+            spawns_seen: 0,
+            spawn_faulted: false,
             gen_index: 0,
             intruded: false,
             intruder_result: None,
@@ -1862,7 +1886,7 @@ impl World {
         if self.hard.is_some() && !self.gating_fault {
             return; // a run of the non-gating hard-fault exploration has its one fault already
         }
-        if self.stat_fault_at.is_some() {
+        if self.stat_fault_at.is_some() || self.spawn_fault_at.is_some() {
             return; // one hard fault per run
         }
         let at = match &mut self.mode {
@@ -1904,7 +1928,7 @@ impl World {
     pub fn stat_fails_now(&mut self) -> bool {
         if !self.stat_fault_decided {
             self.stat_fault_decided = true;
-            if self.hard.is_none() && self.out_budget.is_none() {
+            if self.hard.is_none() && self.out_budget.is_none() && self.spawn_fault_at.is_none() {
                 let at = match &mut self.mode {
                     Mode::Random { profile, .. } => {
                         if profile.stat_fault != 0 && profile.cover_iter.is_none() {
@@ -1943,6 +1967,53 @@ impl World {
         self.stats.stat_faults_injected += 1;
         crate::isolate::child_fault_notice();
         self.event("stat_eio", idx, 0);
+        true
+    }
+
+    /// A thread is about to be created: does this creation fail with EAGAIN? Decided at the first
+    /// creation of a run; never in a run that has another hard fault.
+    pub fn spawn_fails_now(&mut self) -> bool {
+        if !self.spawn_fault_decided {
+            self.spawn_fault_decided = true;
+            if self.hard.is_none() && self.out_budget.is_none() && self.stat_fault_at.is_none() {
+                let at = match &mut self.mode {
+                    Mode::Random { profile, .. } => {
+                        if profile.spawn_fault != 0 && profile.cover_iter.is_none() {
+                            let mut r = Rng::new(profile.spawn_fault);
+                            if r.chance(1, 2) {
+                                r.below(4)
+                            } else {
+                                r.below(64)
+                            }
+                        } else {
+                            NO_FAULT
+                        }
+                    }
+                    Mode::Replay(ReplayPlan { q, .. }) => match q.front() {
+                        Some(Decision::SpawnFault { at }) => {
+                            let a = *at;
+                            q.pop_front();
+                            a
+                        }
+                        _ => NO_FAULT,
+                    },
+                };
+                if at != NO_FAULT {
+                    self.spawn_fault_at = Some(at);
+                    self.event("spawn_fault_planned", at, 0);
+                    self.trace.push(Decision::SpawnFault { at });
+                }
+            }
+        }
+        let idx = self.spawns_seen;
+        self.spawns_seen += 1;
+        if self.frozen || self.spawn_faulted || self.spawn_fault_at != Some(idx) {
+            return false;
+        }
+        self.spawn_faulted = true;
+        self.stats.spawn_faults_injected += 1;
+        crate::isolate::child_fault_notice();
+        self.event("spawn_eagain", idx, 0);
         true
     }
 
